@@ -14,6 +14,7 @@ mod seglog;
 mod seek;
 mod shards;
 mod iohook;
+mod iopool;
 mod leafupd;
 mod lockrec;
 mod openpath;
@@ -80,6 +81,7 @@ fn main() {
         "caches-open0" => caches::run_open0(seed, cases, &mut sink),
         "extrange" => extrange::run(seed, cases, &mut sink),
         "openpath" => openpath::run(seed, cases, &mut sink),
+        "iopool" => iopool::run(seed, cases, &mut sink),
         "openpath-findings" => openpath::run_findings(seed, &mut sink),
         "bttree" => bttree::run(seed, cases, &mut sink),
         "overlay-index" => ovl::run(seed, cases, &mut sink),
